@@ -36,6 +36,11 @@ pub mod utils;
 pub use track::store;
 pub use track::voting;
 
+/// Verification schedule points and trace hook (compiled only with `--cfg similari_verif`).
+///
+#[cfg(similari_verif)]
+pub mod verif_hook;
+
 use thiserror::Error;
 
 /// Package errors
